@@ -462,4 +462,105 @@ def _r05_8_cfg(ctx, cfg):
     ctx.ob("R05.8", f"{tag}check_cross_page:page-constant", page_ok, cc.loc(), f"page constant(s) {consts}: power of two >= LANES {lanes}")
 
 
-RULES = [("R05.1", r05_1), ("R05.2", r05_2), ("R05.3", r05_3), ("R05.4", r05_4), ("R05.7", r05_7), ("R05.8", r05_8), ("R05.9", r05_9)]
+WRITERS = ("write_bool", "write_i8", "write_i16", "write_i32", "write_i64", "write_i128", "write_u8", "write_u16", "write_u32", "write_u64", "write_u128",
+           "write_f32", "write_f64", "write_number_str", "write_char_escape", "write_string_fragment", "write_null", "write_raw_value")
+
+
+def r05_5(ctx):
+    """map keys become strings: every serialize_* of the text MapKeySerializer that writes a scalar does so
+    between begin_string and end_string, delegates to the string serializer, or returns an error"""
+    prog = ctx.prog()
+    ms = [f for f in prog.fns.values() if f.crate == "sonic_rs" and f.kind == "AssocFn" and (f.self_adt or "").endswith("serde::ser::MapKeySerializer") and (f.trait or "").endswith("ser::Serializer") and f.name.startswith("serialize_")]
+    ctx.floor("R05.5", "serialize_* methods of the map-key serializer", len(ms), 25)
+    for f in ms:
+        writes = [(b, t) for b, t in f.calls() if t["callee"].rsplit("::", 1)[-1] in WRITERS and "Formatter" in (t.get("trait") or t["callee"])]
+        if not writes:
+            ctx.ob("R05.5", f"{f.name}", True, f.loc(), "no scalar is written directly (error, or delegation to the string serializer / the value's own Serialize)", nontrivial=False)
+            continue
+        bs = {b for b, t in f.calls() if t["callee"].rsplit("::", 1)[-1] == "begin_string"}
+        es = {b for b, t in f.calls() if t["callee"].rsplit("::", 1)[-1] == "end_string"}
+        ok = bool(bs) and bool(es)
+        for b, t in writes:
+            if not any(f.dominates(x, b) for x in bs):
+                ok = False
+        oks = [b for b, k, _ in return_kinds(f) if k == "Ok"]
+        # every normal completion after the write passes end_string (its result is the return value)
+        for b, t in writes:
+            re_succ = f.succs(b)
+            for s0 in re_succ:
+                leak = f.reachable_from(s0, avoid=es) & set(f.return_blocks)
+                # error returns (write failed) are fine: only paths that do not go through an Err aggregate count
+                errb = {bb for bb, k, _ in return_kinds(f) if k == "Err"}
+                bad_leak = {r for r in leak if not (f.reachable_from(s0, avoid=es | errb) & {r}) == set()} if False else leak
+                if leak and not all(any(eb in f.reachable_from(s0, avoid=es) for eb in errb) for _ in [0]):
+                    ok = False
+        ctx.ob("R05.5", f"{f.name}", ok, f.loc(), "the scalar is written between begin_string and end_string (a quoted key)" if ok else "a scalar map key is written without the surrounding quotes: the output is not a JSON object key")
+
+
+def _written_literals(prog, fn, pm):
+    from ..analysis import live_blocks
+    live = live_blocks(fn, pm, {})
+    out = []
+    for b in sorted(live):
+        t = fn.blocks[b]["term"]
+        if t["k"] not in ("call", "tailcall") or t["callee"].rsplit("::", 1)[-1] != "write_all":
+            continue
+        a = t["args"][1]
+        bs = op_bytes(a)
+        if bs is None and op_local(a) is not None:
+            l = op_local(a)
+            # constants assigned in live blocks
+            sl, _ = backward_slice(fn, [l])
+            cands = []
+            for x in sl | {l}:
+                for d in fn.defs.get(x, []):
+                    if d[0] == "stmt" and d[1] in live and d[3]["rv"]["k"] in ("use", "cast") and d[3]["rv"]["op"]["k"] == "const" and op_bytes(d[3]["rv"]["op"]) is not None:
+                        cands.append(op_bytes(d[3]["rv"]["op"]))
+            if len(cands) == 1:
+                bs = cands[0]
+            elif cands:
+                bs = b"|".join(sorted(set(cands)))
+        out.append(bs)
+    return out
+
+
+def r05_6(ctx):
+    """pretty output = compact output + whitespace: for every Formatter method PrettyFormatter overrides, the
+    constant bytes it writes, with whitespace removed, are those of the default (compact) method, for each
+    value of the `first` flag"""
+    prog = ctx.prog()
+    pim = [im for im in prog.impls if im["trait"] == "sonic_rs::format::Formatter" and "PrettyFormatter" in im["self_ty"]]
+    if len(pim) != 1:
+        ctx.fail_closed("R05.6", "impl Formatter for PrettyFormatter")
+        return
+    tr = prog.traits.get("sonic_rs::format::Formatter")
+    defaults = {m["name"]: m["id"] for m in tr["methods"] if m["has_default"]}
+    ctx.floor("R05.6", "Formatter methods overridden by PrettyFormatter", len(pim[0]["methods"]), 8)
+    strip = lambda bs: bytes(c for c in bs if c not in b" \n\r\t") if bs is not None else None
+    for name, pid_ in sorted(pim[0]["methods"].items()):
+        pf = prog.fns.get(pid_)
+        df = prog.fns.get(defaults.get(name, ""))
+        if pf is None or df is None:
+            ctx.ob("R05.6", name, False, "", "method body missing (fail closed)")
+            continue
+        bools = [i for i in range(1, pf.argc + 1) if pf.locals[i]["ty"] == "bool"]
+        ctxs = [{}] if not bools else [{bools[0]: True}, {bools[0]: False}]
+        ok = True
+        detail = []
+        for pm in ctxs:
+            pl = _written_literals(prog, pf, pm)
+            dl = _written_literals(prog, df, pm)
+            if any(x is None for x in pl + dl):
+                # a non-constant write: only the indentation helper is allowed to write data-dependent bytes
+                ok = False
+                detail.append(f"{pm}: non-constant write")
+                continue
+            ps = b"".join(strip(x) for x in pl)
+            ds = b"".join(strip(x) for x in dl)
+            if ps != ds:
+                ok = False
+            detail.append(f"{'first=' + str(list(pm.values())[0]) if pm else 'always'}: pretty {b''.join(pl)!r} vs compact {b''.join(dl)!r}")
+        ctx.ob("R05.6", name, ok, pf.loc(), "; ".join(detail))
+
+
+RULES = [("R05.1", r05_1), ("R05.2", r05_2), ("R05.3", r05_3), ("R05.4", r05_4), ("R05.5", r05_5), ("R05.6", r05_6), ("R05.7", r05_7), ("R05.8", r05_8), ("R05.9", r05_9)]
